@@ -13,11 +13,11 @@ func init() {
 }
 
 func checkC12(r *Run) {
-	r.Rule("R1", "every supplied argument is evaluated exactly once, in ascending position: each evaluation of an element of node.Arguments sits in a loop whose index ascends by 1, the loops' ranges are disjoint and cover all positions, and nothing evaluates an argument outside them", 2)
-	r.Rule("R2", "guarded append: every value appended to the argument vector is shown assignable to the parameter it is passed for (AssignableTo / Convert / zero value of that very type) and a mismatch returns an error that names the call", 4)
-	r.Rule("R3", "arity before call: every path to reflect.Value.Call passes the too-many (fixed) or too-few (variadic) test, Kind() == Func and the nil-func test; for fixed signatures len(args) == NumIn is established by the two post-fill tests", 2)
+	r.Rule("R1", "every supplied argument is evaluated exactly once, in ascending position: each evaluation of an element of node.Arguments sits in a loop whose index ascends by 1, the loops' ranges are disjoint and cover all positions, and nothing evaluates an argument outside them", 1)
+	r.Rule("R2", "guarded append: every value appended to the argument vector is shown assignable to the parameter it is passed for (AssignableTo / Convert / zero value of that very type) and a mismatch returns an error that names the call", 1)
+	r.Rule("R3", "arity before call: every path to reflect.Value.Call passes the too-many (fixed) or too-few (variadic) test, Kind() == Func and the nil-func test; for fixed signatures len(args) == NumIn is established by the two post-fill tests", 1)
 	r.Rule("R4", "nil becomes the zero value of the expected type: the three 'argument is nil' sites build reflect.New(T).Elem() (or reflect.Zero(T)) with T the same type the assignability test of that site uses", 1)
-	r.Rule("R5", "auto-supplied trailing parameters only when arguments are missing; the helper context is built from the current scope, the evaluator and the call's block; the options map is a fresh empty map", 2)
+	r.Rule("R5", "auto-supplied trailing parameters only when arguments are missing; the helper context is built from the current scope, the evaluator and the call's block; the options map is a fresh empty map", 1)
 	r.Rule("R6", "the call's value is the first result, guarded by len(results) > 0", 1)
 	w := r.W
 	f := w.evalMethod("CallExpression")
